@@ -109,7 +109,7 @@ pub fn run(tier: Tier) -> i32 {
     let mut rep = Report::new("C16", tier, "model_checking");
     let deadline = Deadline::after(Duration::from_secs(tier.pick(50, 3000)));
     let files = crate::c03::cursor_files(tier);
-    let opt = BfsOptions { check_results: false, check_loads: true, max_states: tier.pick(400_000, 4_000_000), full_probes: true };
+    let opt = BfsOptions { check_results: false, check_loads: true, max_states: tier.pick(400_000, 4_000_000), full_probes: true, with_faults: false };
     let mut acc = par_for(files.len(), 1, &deadline, |i, acc| {
         let (name, spec) = &files[i];
         let Ok((entries, bytes)) = build_file(spec) else {
